@@ -26,9 +26,23 @@ func Unmarshal(result Result, value any, settings ...ContextApply) error {
 
 func unmarshal(result Result, value any, settings ...ContextApply) error {
 	val := reflect.ValueOf(value)
+
+	if val.IsValid() && val.Kind() == reflect.Slice {
+		return fmt.Errorf("field <slice> is not settable")
+	}
+
+	if !val.IsValid() || val.Kind() != reflect.Pointer || val.IsNil() {
+		return fmt.Errorf("unmarshal target must be a non-nil pointer")
+	}
+
 	typ := val.Type()
 
 	for typ.Kind() == reflect.Pointer {
+		if val.IsNil() {
+			// Allocate the missing links of a pointer chain.
+			val.Set(reflect.New(typ.Elem()))
+		}
+
 		val = val.Elem()
 		typ = typ.Elem()
 	}
@@ -122,12 +136,18 @@ func unmarshalSlice(result Result, val reflect.Value, settings ...ContextApply) 
 		sliceElementKind = sliceElement.Kind()
 	}
 
+	if sliceElementKind == reflect.Slice {
+		return fmt.Errorf("slice unmarshals can only operate on 1-dimensional slices")
+	}
+
+	if _, ok := createValue(sliceElementKind, String("")); !ok && sliceElementKind != reflect.Struct {
+		return fmt.Errorf("invalid slice element type")
+	}
+
 	for _, i := range nodeset {
 		var sliceValue reflect.Value
 
-		if sliceElementKind == reflect.Slice {
-			return fmt.Errorf("slice unmarshals can only operate on 1-dimensional slices")
-		} else if sliceElementKind == reflect.Struct {
+		if sliceElementKind == reflect.Struct {
 			ptr := reflect.New(sliceElement)
 			ptr.Elem().Set(reflect.Zero(sliceElement))
 
